@@ -6,8 +6,9 @@ Alphabet
   shape      N components, each a non-empty subset of {process_request, process_resource,
              process_response}; N=0 (no middleware) is included.
   flavour    WSGI: sync methods, every component also carries ``*_async`` decoys (must never be
-             called).  ASGI: 'plain' (``async def process_x``) or 'twin' (``process_x_async`` is real,
-             a sync ``process_x`` decoy sits next to it and must never be called); both flavours
+             called).  ASGI: 'plain' (``async def process_x``), 'twin' (``process_x_async`` is real,
+             a sync ``process_x`` decoy sits next to it and must never be called) or 'mix' (the two
+             spellings alternate between the methods of ONE component); all three flavours
              for the whole stack for N<=2, alternating per component for N=3.
   mode       independent_middleware in {True, False}
   target     routed (GET /r/{p}), unrouted (404 default responder), sink, r405 (route matched,
@@ -169,6 +170,7 @@ def _decoy(label, is_async):
 
 
 def make_component(i, methods, stack, twin):
+    _KIND_ORDER = sorted(_NAMES)
     ns = {}
     for kind in methods:
         body = _mw_body(kind, i)
@@ -176,6 +178,14 @@ def make_component(i, methods, stack, twin):
         if stack == 'wsgi':
             ns[name] = body
             ns[name + '_async'] = _decoy('%s%d_async' % (kind, i), True)
+        elif twin == 'mix':
+            # one component, both spellings: every second method uses the *_async name (with a sync decoy next to
+            # it), the others the plain name -- each method is resolved on its own
+            if (i + _KIND_ORDER.index(kind)) % 2 == 0:
+                ns[name + '_async'] = _as_async(body)
+                ns[name] = _decoy('%s%d_sync' % (kind, i), False)
+            else:
+                ns[name] = _as_async(body)
         elif twin:
             ns[name + '_async'] = _as_async(body)
             ns[name] = _decoy('%s%d_sync' % (kind, i), False)
@@ -267,6 +277,8 @@ def twin_of(cfg, i):
         return False
     if fl == 'twin':
         return True
+    if fl == 'mix':
+        return 'mix'
     return i % 2 == 1     # 'alt'
 
 
@@ -753,7 +765,7 @@ def gen_configs(tier, seed):
                 elif n == 0:
                     flavours = ['plain']
                 elif n <= 2:
-                    flavours = ['plain', 'twin']
+                    flavours = ['plain', 'twin', 'mix']
                 else:
                     flavours = ['alt']
                 regs = ['ctor', 'add'] if 1 <= n <= 2 else ['ctor']
